@@ -65,6 +65,24 @@ pub fn triple_slow<P: PT>(a: u64, b: u64, c: u64, ops: &[usize], l: &mut Local) 
                         l.label("cancel>=20bits");
                     }
                 }
+                if cl == RClass::Inexact {
+                    // how close to a rounding threshold? (sticky-bit territory: residual is one distant bit)
+                    let m = gen::mask(n);
+                    let wm = if want >> (n - 1) & 1 == 1 { want.wrapping_neg() & m } else { want };
+                    for t in [(wm << 1).wrapping_sub(1), (wm << 1) + 1] {
+                        if let Some(v) = decode(n + 1, P::ES, t & gen::mask(n + 1)) {
+                            let dlt = e.abs().sub(&v);
+                            if !dlt.is_zero() && dlt.mag.bitlen() == 1 {
+                                let depth = (v.mag.bitlen() as i64 + v.exp as i64) - (dlt.exp as i64 + 1);
+                                if depth >= n as i64 + 4 {
+                                    l.label("threshold+-one_bit,depth>=n+4");
+                                } else {
+                                    l.label("threshold+-one_bit");
+                                }
+                            }
+                        }
+                    }
+                }
                 if cl == RClass::Tie {
                     l.sample(|| json!({"type": P::NAME, "op": OPS[op], "a": hex(a), "b": hex(b), "c": hex(c), "result": hex(want), "class": "tie"}));
                 }
@@ -116,6 +134,10 @@ pub fn run(rep: &mut Report) {
     };
     rep.generated("P16E1 generated triples", g16, || gen::triple(16, 1), |&(a, b, c), l| triple_slow::<P16E1>(a, b, c, &[0, 1, 2], l));
     rep.generated("P16E1 tie-directed triples", t16, || gen::tie_triple(16, 1), |&(a, b, c), l| triple_slow::<P16E1>(a, b, c, &[0, 1, 2], l));
+    rep.generated("P16E1 near-tie triples (a*b + c = threshold + residual far below the ulp)", t16, || gen::near_tie_triple(16, 1), |&(a, b, c), l| triple_slow::<P16E1>(a, b, c, &[0, 1, 2], l));
+    rep.generated("P32E2 near-tie triples (a*b + c = threshold + residual far below the ulp)", t32, || gen::near_tie_triple(32, 2), |&(a, b, c), l| triple_slow::<P32E2>(a, b, c, &[0, 1, 2], l));
+    rep.generated("P16E1 sparse-product triples (a*b + c = threshold +- one bit at a drawn depth)", t16, || gen::sparse_tie_triple(16, 1), |&(a, b, c), l| triple_slow::<P16E1>(a, b, c, &[0, 1, 2], l));
+    rep.generated("P32E2 sparse-product triples (a*b + c = threshold +- one bit at a drawn depth)", t32, || gen::sparse_tie_triple(32, 2), |&(a, b, c), l| triple_slow::<P32E2>(a, b, c, &[0, 1, 2], l));
     rep.generated("P32E2 generated triples", g32, || gen::triple(32, 2), |&(a, b, c), l| triple_slow::<P32E2>(a, b, c, &[0, 1, 2], l));
     rep.generated("P32E2 tie-directed triples", t32, || gen::tie_triple(32, 2), |&(a, b, c), l| triple_slow::<P32E2>(a, b, c, &[0, 1, 2], l));
     // extreme lattice: (a,b) among extreme-regime patterns, c in a window around -round(ab)
